@@ -1,8 +1,15 @@
 package main
 
 import (
+	"bytes"
+	"encoding/json"
+	"fmt"
 	"math"
+	"os"
+	"os/exec"
+	"runtime/debug"
 	"strconv"
+	"time"
 
 	"harness/hx"
 )
@@ -364,5 +371,76 @@ func groupHistory(s *sink, g *hx.Gen) {
 	if after := describe(); after != before {
 		s.finding(Finding{Prop: "C12", What: "the schema's self-description changed after a history of calls", Schema: t,
 			Detail: []string{before, after}})
+	}
+}
+
+// runCaseIsolated executes one schema-operation case in a child process, so that a fatal stack
+// overflow or a hang is attributed to this case: the result is then "fuel".
+func runCaseIsolated(c hx.Case) hx.Result {
+	b, _ := json.Marshal(c)
+	cmd := exec.Command(os.Args[0], "op-child")
+	cmd.Stdin = bytes.NewReader(b)
+	var out bytes.Buffer
+	cmd.Stdout = &out
+	if err := cmd.Start(); err != nil {
+		return hx.Result{R: "panic", Msg: err.Error()}
+	}
+	done := make(chan error, 1)
+	go func() { done <- cmd.Wait() }()
+	select {
+	case err := <-done:
+		if err != nil {
+			return hx.Result{R: "fuel", Msg: "child died: " + err.Error()}
+		}
+	case <-time.After(20 * time.Second):
+		_ = cmd.Process.Kill()
+		return hx.Result{R: "fuel", Msg: "timeout"}
+	}
+	var r hx.Result
+	if err := json.Unmarshal(bytes.TrimSpace(out.Bytes()), &r); err != nil {
+		return hx.Result{R: "fuel", Msg: "no result from child"}
+	}
+	return r
+}
+
+func opChild() {
+	debug.SetMaxStack(64 << 20)
+	var c hx.Case
+	if err := json.NewDecoder(os.Stdin).Decode(&c); err != nil {
+		fmt.Fprintln(os.Stderr, err)
+		os.Exit(2)
+	}
+	r := hx.Guard(func() hx.Result { rr, _ := hx.RunOpRaw(c.Op, c.Schema.Build(), c.V.ToGo()); return rr })
+	fmt.Println(r.JSON())
+}
+
+// groupRecursionWitness: the recorded non-termination (known finding): a single-property object
+// whose property refers to the object itself, given a non-map value, re-enters the single-property
+// shorthand for ever. Replayed in a child process on every run.
+func groupRecursionWitness(s *sink, g *hx.Gen) {
+	if s.stats["witness:done"] > 0 {
+		return
+	}
+	s.stats["witness:done"]++
+	t := &hx.Ty{T: "scope", Root: "A", Objs: []hx.NamedObj{{ID: "A", Ty: &hx.Ty{T: "obj", ID: "A",
+		Props: []hx.NamedProp{{Name: "next", P: &hx.Prop{Ty: &hx.Ty{T: "ref", ID: "A"}}}}}}}}
+	for _, v := range []*hx.Val{hx.Int("int64", 5), hx.Str("x"), hx.Nil()} {
+		for _, op := range []string{"U", "C"} {
+			s.nextID++
+			c := hx.Case{ID: s.nextID, Op: op, Schema: t, V: v, Ext: hx.MkExt(t, v), Fuel: 400, Cmp: "class", Note: "recursion-witness"}
+			b, _ := json.Marshal(c)
+			s.cases.Write(b)
+			s.cases.WriteByte('\n')
+			res := runCaseIsolated(c)
+			rb, _ := json.Marshal(res)
+			s.results.Write(rb)
+			s.results.WriteByte('\n')
+			if res.R == "fuel" {
+				s.finding(Finding{Prop: "C04", What: "operation does not terminate: single-property object referring to itself, non-map input (shorthand recursion)",
+					Cases: []int{c.ID}, Schema: t, Input: v, Detail: []string{"single-property-self-reference-shorthand", res.Msg}})
+				s.finding(Finding{Prop: "C14", What: "self-referential object graph does not work on a finite input: single-property object referring to itself, non-map input (shorthand recursion)",
+					Cases: []int{c.ID}, Schema: t, Input: v, Detail: []string{"single-property-self-reference-shorthand", res.Msg}})
+			}
+		}
 	}
 }
